@@ -132,4 +132,23 @@ def register(w):
         f"{MO}:_copy_shape_dtype", params={"dst": Opt(Ref(VALUE)), "src": Opt(Ref(VALUE))}, ret=Bool, raises=set(),
         ensures=[("shape", shape_part), ("type", type_part)], modifies=[(VALUE, "shape"), (VALUE, "type"), (SHAPE, "dims")], props=["C08"], witnesses=["C08_copy_family"], track_alloc=True,
     ))
+    # ---- bounded stand-ins (never counted as proved): functions outside the reach of the VC generator
+    def bounded(target, name, witness, bound, why):
+        def custom(world, c, out):
+            import time
+            from pyvc.run import run_witness
+            t0 = time.time()
+            holds, detail = run_witness(witness, timeout=900)
+            d = {"oid": f"{target}#bounded:{name}", "kind": "bounded", "status": "discharged" if holds else ("refuted" if holds is False else "unknown"), "backend": "enumerated",
+                 "time": time.time() - t0, "instances": 1, "trivial": 0, "bounded": bound, "note": f"{why}; {detail}"[:600]}
+            if holds is False:
+                d.update(args={"witness": witness}, replay={"reproduced": True, "detail": detail}, formula="", model=detail)
+            out["obls"].append(d)
+            out["paths"], out["time"] = 1, time.time() - t0
+            return out
+        w.add_contract(Contract(f"{target.split(chr(58))[0]}:<bounded-{name}>", kind="custom", custom=custom, props=["C08"], witnesses=[witness]))
+
+    bounded(f"{MO}:_refresh_elementwise_output_shape", "declared_dims_of_a_refreshed_elementwise_output_hold_at_run_time", "C08_elementwise_refresh_family",
+            "binary operator, operand ranks <= 3, extents in {1,3}, symbols B/C/unknown bound to 1 or 3, size-1 constants of rank <= 2",
+            "_broadcast_shape_dims/_refresh_elementwise_output_shape work on heterogeneous tuples of int|SymbolicDim with nested loops over a list of tuples; not within the VC generator's subset")
     return api
